@@ -1,6 +1,6 @@
 SPEC = {
     "id": "C03",
-    "n": {"quick": 900, "thorough": 100000},
+    "n": {"quick": 900, "thorough": 30000},
     "search": {"n": 40000},
     "coq_modules": ["DiffMerge.Model", "DiffMerge.GModel", "DiffMerge.GInst"],
     "components": {"1": "diff.Diff delta", "2": "merge.Merge result", "3": "client/src/merge.ts result",
